@@ -50,8 +50,9 @@ ASSUMPTIONS = [
     "of tau*|d|, (1-tau)*|d| and the summation only",
     "the oracle is exact rational arithmetic on the float inputs; a "
     "tau-quantile is a c with #(y<c) <= tau*n <= #(y<=c)",
-    "y_tau and y_test are numpy float arrays (lists, NaN, empty arrays and "
-    "integer dtypes are not exercised); samples have <= 6 values, the "
+    "y_tau and y_test are numpy arrays of float64 or - in the first layout of "
+    "every case with integral values - int64 (lists, NaN, empty arrays and "
+    "float32 are not exercised); samples have <= 6 values, the "
     "statement's 10^4 is not reached",
     "shape combinations whose sizes agree (y_tau.size == y_test.size * "
     "taus.size) but whose axes do not follow the documented (n, k) layout "
@@ -132,13 +133,30 @@ def call(func, y_tau, y_test, taus):
     return getattr(scores, func)(y_tau, y_test, taus)
 
 
-def run_layout(func, y, est, taus, layout):
+def integral(values):
+    return all(float(v).is_integer() for v in np.ravel(values))
+
+
+def dtype_variants(y, est):
+    """(dtype of y_tau, dtype of y_test): float always, integer arrays where
+    the values allow it (estimates / observations given as counts)."""
+    out = [(float, float)]
+    if integral(est):
+        out.append(("int64", float))
+    if integral(y):
+        out.append((float, "int64"))
+    if integral(est) and integral(y):
+        out.append(("int64", "int64"))
+    return out
+
+
+def run_layout(func, y, est, taus, layout, dtypes=(float, float)):
     """Calls typhon with the case arranged as `layout` = (y_tau ndim, y_test
     ndim, taus form). -> (result, None) or (None, exception)."""
     tdim, ydim, form = layout
-    y_tau = np.array(est, dtype=float).reshape(
+    y_tau = np.array(est, dtype=float).astype(dtypes[0]).reshape(
         (len(y),) if tdim == 1 else (len(y), len(taus)))
-    y_test = np.array(y, dtype=float).reshape(
+    y_test = np.array(y, dtype=float).astype(dtypes[1]).reshape(
         (len(y),) if ydim == 1 else (len(y), 1))
     t = dict(scalar=lambda: taus[0], list=lambda: list(taus),
              array=lambda: np.array(taus))[form]()
@@ -159,19 +177,25 @@ def check_documented(y, est, taus, which=None):
     """The case in every layout (or only `which`), both functions."""
     for func, judge in JUDGES.items():
         verified = None
-        for layout in ([which] if which else layouts(len(taus))):
-            out, exc = run_layout(func, y, est, taus, layout)
-            if exc is not None:
-                return ("exception/%s/%s" % (func, type(exc).__name__),
-                        "a result", repr(exc)[:200], "layout %r" % (layout,))
-            # identical bits as an already judged result: same verdict
-            if verified is not None and np.shape(out) == verified.shape \
-                    and np.array_equal(out, verified):
-                continue
-            bad = judge(out, y, est, taus)
-            if bad is not None:
-                return bad[:3] + ((bad[3] + " layout %r" % (layout,)).strip(),)
-            verified = np.asarray(out)
+        for li, layout in enumerate([which] if which
+                                    else layouts(len(taus))):
+            # integer-typed arrays in the first layout of every case
+            for dtypes in (dtype_variants(y, est) if li == 0
+                           else [(float, float)]):
+                out, exc = run_layout(func, y, est, taus, layout, dtypes)
+                where = "layout %r dtypes %r" % (layout, dtypes)
+                if exc is not None:
+                    return ("exception/%s/%s" % (func, type(exc).__name__),
+                            "a result", repr(exc)[:200], where)
+                # identical bits as an already judged result: same verdict
+                if verified is not None and \
+                        np.shape(out) == verified.shape \
+                        and np.array_equal(out, verified):
+                    continue
+                bad = judge(out, y, est, taus)
+                if bad is not None:
+                    return bad[:3] + ((bad[3] + " " + where).strip(),)
+                verified = np.asarray(out)
     return None
 
 
